@@ -83,3 +83,15 @@ Definition dial (limit connect upstream_status : Z) : Z :=
 Definition serve (limit delay upstream_status : Z) : Z * Z :=
   if (0 <? limit) && (limit <=? delay) then (error_status ENetTimeout, limit)
   else (upstream_status, delay).
+
+(* What a layer that hands the request to the transport up to [attempts] times would give
+   (each attempt runs against the same upstream and is given up after [limit]).  The proxy
+   has no such layer: newHTTPProxy passes the transport itself to httputil.ReverseProxy, so
+   the request reaches the upstream once ([attempts_of_proxy]); the generalisation is what
+   the limit theorem is refuted for when a retry is put in between.
+   Result: (status, time at which the client is answered, requests the upstream received). *)
+Definition attempts_of_proxy : Z := 1.
+Definition serve_n (attempts limit delay upstream_status : Z) : Z * Z * Z :=
+  if (0 <? limit) && (limit <=? delay)
+  then (error_status ENetTimeout, Z.max 1 attempts * limit, Z.max 1 attempts)
+  else (upstream_status, delay, 1).
